@@ -249,8 +249,8 @@ class Calls:
     def bind_results(self, names, fn, vals, rtypes, decl=None):
         for i, v in enumerate(vals):
             names["result%d" % i] = v
-        if vals:
-            names["result"] = vals[0] if len(vals) == 1 or True else None
+        if vals and "result" not in names:
+            names["result"] = vals[0]
         if fn is not None:
             for r, v in zip(fn["results"], vals):
                 if r["name"] and r["name"] != "_":
